@@ -19,7 +19,7 @@ func init() {
 		Controls: []string{"CtlUntrackedHandler"},
 		Run:      ruleClean3})
 	Register(&Rule{ID: "R-CLEAN-4", Props: []string{"C11"}, Floor: 30,
-		Doc:      "reads do not write: Handler.FileForUpdate is called only in Transaction.Commit or in functions all of whose call-graph callers are, recursively, such functions, and in Commit no call reaching FileForUpdate can execute after a call reaching Container.Commit (write phase before the first handler is finalised); every argument bound to a bool parameter named forUpdate is the constant false, a forwarded forUpdate parameter, SelectQuery.IsForUpdate() in Select, or the constant true inside one of the eight data-changing statement functions; Container.CreateHandlerForUpdate is called only under the true edge of a forUpdate test and CreateHandlerForCreate only by CreateTable",
+		Doc:      "reads do not write: Handler.FileForUpdate is called only in Transaction.Commit or in functions all of whose call-graph callers are, recursively, such functions, and in Commit no call reaching FileForUpdate can execute after a call reaching Container.Commit (write phase before the first handler is finalised); every argument bound to a bool parameter named forUpdate is the constant false, a forwarded forUpdate parameter, SelectQuery.IsForUpdate() in Select (or a helper all of whose callers are, recursively, Select), or the constant true inside one of the eight data-changing statement functions; Container.CreateHandlerForUpdate is called only under the true edge of a forUpdate test and CreateHandlerForCreate only by CreateTable",
 		Controls: []string{"CtlLoadForUpdateInReader", "CtlFileForUpdateOutsideCommit"},
 		Run:      ruleClean4})
 	Register(&Rule{ID: "R-CLEAN-5", Props: []string{"C11"}, Floor: 3,
@@ -331,9 +331,15 @@ func ruleClean4(c *Ctx) {
 					c.Ok(key, c.Pos(k), "forwards the caller's forUpdate parameter")
 					continue
 				}
-				if call, ok := arg.(*ssa.Call); ok && calleeIn(p, call, "lib/parser.(SelectQuery).IsForUpdate") && top == "lib/query.Select" {
-					c.Ok(key, c.Pos(k), "SELECT … FOR UPDATE, decided by the query itself")
-					continue
+				if call, ok := arg.(*ssa.Call); ok && calleeIn(p, call, "lib/parser.(SelectQuery).IsForUpdate") {
+					inSelect := top == "lib/query.Select"
+					if !inSelect {
+						inSelect, _ = calledOnlyFrom(p, fn, func(t string) bool { return t == "lib/query.Select" })
+					}
+					if inSelect {
+						c.Ok(key, c.Pos(k), "SELECT … FOR UPDATE, decided by the query itself (in Select or a helper only Select calls)")
+						continue
+					}
 				}
 				c.Bad(key, c.Pos(k), "forUpdate is bound to "+valueLabel(arg)+", which is neither a constant, a forwarded forUpdate parameter nor SelectQuery.IsForUpdate() in Select: whether a read takes write locks can no longer be decided")
 			}
